@@ -45,7 +45,11 @@ Expect(s, ev) ==
              r == G!Open(o.rk, ev.nonce, ev.aad, ev.ct, o.ts)
              okV == /\ ev.panic = ""
                     /\ IF r.ok THEN ev.err = "" /\ ev.out = Prefix(ev) \o r.pt
-                               ELSE ev.err # "" /\ ev.nil_on_err /\ ev.out = <<>>
+                               ELSE /\ ev.err # "" /\ ev.nil_on_err /\ ev.out = <<>>
+                                    \* "no plaintext": what the call left in the caller's buffer (spare capacity of
+                                    \* dst, or the input itself when opening in place) is not the decryption of the body
+                                    /\ (ev.spill_clean \/ Len(ev.spill) < 4
+                                        \/ ev.spill # G!Decrypted(o.rk, ev.nonce, ev.ct, o.ts))
              okIn == /\ ev.nonce_after = ev.nonce /\ ev.aad_after = ev.aad
                      /\ (Inplace(ev) \/ ev.in_after = ev.ct)
              okRep == (ev.repeat /\ ~Inplace(ev)) =>
